@@ -726,7 +726,10 @@ func init() {
 		"log.Println":  nop,
 		"log.Print":    nop,
 
-		// ---- ristretto cache: may always miss (documented contract of a cache) ----
+		// ---- ristretto cache: an association list per cache object. Get returns what the last Set
+		// stored under an equal key (a real cache may also miss; the hit is the behaviour that lets
+		// two users of one cache interfere, the miss is what the code has to handle anyway and is
+		// exercised by every first lookup). Keys are compared with Go's interface equality.
 		"github.com/dgraph-io/ristretto.NewCache": func(m *Machine, _ *frame, fn *ssa.Function, a []Value) Value {
 			res := fn.Signature.Results()
 			cell := new(Value)
@@ -734,9 +737,25 @@ func init() {
 			return Tuple{cell, Iface{}}
 		},
 		"(*github.com/dgraph-io/ristretto.Cache).Get": func(m *Machine, _ *frame, fn *ssa.Function, a []Value) Value {
+			entries, _ := m.natives["ristretto"].(map[*Value][][2]Value)
+			cell, _ := a[0].(*Value)
+			for _, e := range entries[cell] {
+				if eq := m.eq(e[0], a[1]); eq.IsConst() && eq.Val != 0 {
+					return Tuple{e[1], m.C.True}
+				}
+			}
 			return Tuple{Iface{}, m.C.False}
 		},
-		"(*github.com/dgraph-io/ristretto.Cache).Set": func(m *Machine, _ *frame, fn *ssa.Function, a []Value) Value { return m.C.True },
+		"(*github.com/dgraph-io/ristretto.Cache).Set": func(m *Machine, _ *frame, fn *ssa.Function, a []Value) Value {
+			entries, _ := m.natives["ristretto"].(map[*Value][][2]Value)
+			if entries == nil {
+				entries = map[*Value][][2]Value{}
+				m.natives["ristretto"] = entries
+			}
+			cell, _ := a[0].(*Value)
+			entries[cell] = append([][2]Value{{a[1], a[2]}}, entries[cell]...)
+			return m.C.True
+		},
 
 		// ---- zyedidia hashmap: the real code runs, with the user-supplied hash closure replaced by
 		// the constant 0. For any hash consistent with the supplied equality (obligation C09) the
